@@ -8,6 +8,7 @@ import (
 	"path/filepath"
 	"strings"
 	"time"
+	"unicode/utf8"
 
 	"github.com/spf13/afero"
 )
@@ -18,6 +19,14 @@ type Metadata struct {
 	Size    int64
 	Hash    []byte
 	Meta    map[string]string
+}
+
+// storedMetadata is Metadata as kept in the metadata file. Header values are
+// bytes but JSON strings are not (json.Marshal replaces what is not valid UTF-8
+// with U+FFFD), so such values of Meta are stored in MetaRaw instead.
+type storedMetadata struct {
+	Metadata
+	MetaRaw map[string][]byte `json:",omitempty"`
 }
 
 // metaPathMaxKeyLen is the longest flattened key kept in a metadata file name.
@@ -94,8 +103,16 @@ func (ms *metaStore) loadMeta(bucket string, object string, size int64, mtime ti
 
 	var meta Metadata
 	if len(bts) > 0 {
-		if err := json.Unmarshal(bts, &meta); err != nil {
+		var stored storedMetadata
+		if err := json.Unmarshal(bts, &stored); err != nil {
 			return nil, err
+		}
+		meta = stored.Metadata
+		for k, v := range stored.MetaRaw {
+			if meta.Meta == nil {
+				meta.Meta = map[string]string{}
+			}
+			meta.Meta[k] = string(v)
 		}
 	}
 
@@ -123,7 +140,21 @@ func (ms *metaStore) loadMeta(bucket string, object string, size int64, mtime ti
 }
 
 func (ms *metaStore) saveMeta(path metaPath, meta *Metadata) error {
-	bts, err := json.Marshal(meta)
+	stored := storedMetadata{Metadata: *meta}
+	for k, v := range meta.Meta {
+		if !utf8.ValidString(v) {
+			if stored.MetaRaw == nil {
+				stored.MetaRaw = map[string][]byte{}
+				stored.Meta = make(map[string]string, len(meta.Meta))
+				for k, v := range meta.Meta {
+					stored.Meta[k] = v
+				}
+			}
+			stored.MetaRaw[k] = []byte(v)
+			delete(stored.Meta, k)
+		}
+	}
+	bts, err := json.Marshal(&stored)
 	if err != nil {
 		return err
 	}
